@@ -29,7 +29,7 @@ ASSUMPTIONS = [
 
 
 def budget(tier):
-    return {'quick': 160, 'thorough': 4000}[tier]
+    return {'quick': 288, 'thorough': 3200}[tier]
 
 
 def strategy(tier):
